@@ -112,6 +112,12 @@ def main(argv):
         path = common.write_replay_file(prop, "%s-%s" % (case["oid"], case["_k"]), case)
         violations.append((key, path, rr.get("detail", "")))
 
+    dump = os.environ.get("VERIF_DUMP_KEYS")
+    if dump:
+        with open(dump, "w") as f:
+            json.dump({"violations": [{"key": k, "detail": str(d)[:1500]} for k, _p, d in violations],
+                       "known": {kid: keys for kid, (_kf, keys) in known_hits.items()},
+                       "gaps": [{"key": c.get("key"), "detail": str(r.get("detail"))[:800]} for c, r in gaps]}, f, indent=1)
     for kid, (kf, keys) in sorted(known_hits.items()):
         print("KNOWN-FINDING: property=%s %s: %s [%d failing case(s)]" % (prop, kid, kf.get("what", ""), len(keys)))
     for key, path, detail in violations:
